@@ -172,8 +172,16 @@ const struct pw_format *pw_check(HIO_HANDLE *f, struct xmp_test_info *info)
 		if (res > 0 && !internal) {
 			/* Extra data was requested. */
 			/* Round requests up to 4k to reduce slow checks. */
-			int fetch = (res + 0xfff) & ~0xfff;
-			unsigned char *buf = (unsigned char *) realloc(b, s + fetch);
+			int fetch;
+			unsigned char *buf;
+
+			/* A request the rest of the file can't satisfy comes from
+			 * junk offsets: don't size a buffer from it. */
+			if (res > hio_size(f) - s) {
+				continue;
+			}
+			fetch = (res + 0xfff) & ~0xfff;
+			buf = (unsigned char *) realloc(b, s + fetch);
 			if (buf == NULL) {
 				free(b);
 				return NULL;
